@@ -251,6 +251,19 @@ fn main() {
         }
         #[cfg(not(feature = "full"))]
         out.push_str("serde=X|");
+        // the num-traits methods (reached through the traits)
+        #[cfg(feature = "full")]
+        {
+            use num_traits::{Num, One, Signed, Zero};
+            d(&mut out, "nt_abs_sub", || Signed::abs_sub(&x, &y));
+            d(&mut out, "nt_abs_sub_rev", || Signed::abs_sub(&y, &x));
+            d(&mut out, "nt_abs", || Signed::abs(&x));
+            d(&mut out, "nt_signum", || Signed::signum(&x));
+            t(&mut out, "nt_preds", || format!("{} {} {} {}", Zero::is_zero(&x), One::is_one(&x), Signed::is_positive(&x), Signed::is_negative(&x)));
+            t(&mut out, "nt_radix", || format!("{:?} {:?}", <Decimal as Num>::from_str_radix(&s, 10).map(|v| (v.coefficient(), v.n_frac_digits())), <Decimal as Num>::from_str_radix(&s, 16).map(|v| (v.coefficient(), v.n_frac_digits()))));
+        }
+        #[cfg(not(feature = "full"))]
+        out.push_str("nt_abs_sub=X|nt_abs_sub_rev=X|nt_abs=X|nt_signum=X|nt_preds=X|nt_radix=X|");
         // floats
         t(&mut out, "to_f64", || format!("{:x}", f64::from(x).to_bits()));
         t(&mut out, "to_f32", || format!("{:x}", f32::from(x).to_bits()));
